@@ -262,7 +262,9 @@ def run_cf_in(spec, res, d, h):
             if again != want:
                 j = next((i for i, (a, b) in enumerate(zip(again, want))
                           if a != b), 0)
-                res.viol('wrong-instant:cf:after-bounds',
+                res.viol('wrong-instant:cf:after-bounds' if cal in (
+                    None, 'standard', 'gregorian', 'proleptic_gregorian')
+                    else 'wrong-instant:cf:nonstandard',
                          'units %r: after getTimes(bounds=True), getTimes() '
                          'decodes value %r to %s, cftime says %s'
                          % (units, vals[j], again[j] if j < len(again)
